@@ -3,6 +3,9 @@
 (*  classes  fixed-shape scenarios over the name / password classes (create,    *)
 (*           ask again, other password, export, import) and a cross-name         *)
 (*           export -> import transfer                                           *)
+(*  given    a key with 0, 1, 2.. leading zero bytes in its secret scalar is     *)
+(*           brought by the caller (ImportPrivateKey), read back, exported and   *)
+(*           imported under another name                                         *)
 (*  life     histories of the Keystore state machine with a history variable     *)
 (*           (tlc -simulate)                                                     *)
 (* scrypt makes every file-keystore operation cost 0.1 - 1 s: quick runs keep    *)
@@ -25,6 +28,7 @@ OpKey(n, p)       == [op |-> "key", name |-> n, pw |-> p]
 OpExists(n)       == [op |-> "exists", name |-> n]
 OpExport(n, p, s) == [op |-> "export", name |-> n, pw |-> p, slot |-> s]
 OpImport(n, p, s) == [op |-> "import", name |-> n, pw |-> p, slot |-> s]
+OpImportPriv(n, p, g) == [op |-> "importpriv", name |-> n, pw |-> p, lz |-> g]
 
 ClassScenario(i, j) ==
   LET n == GNameSeq[i] p == GPwSeq[j] q == OtherPw(j)
@@ -39,10 +43,24 @@ TransferScenario(i, j) ==
       ops |-> <<OpKey(a, p), OpKey(b, p), OpExport(a, p, 1), OpImport(b, p, 1), OpKey(b, p), OpKey(a, p),
                 OpImport(b, q, 1), OpKey(b, p), OpExport(b, p, 2), OpImport(a, p, 2), OpKey(a, p)>>]
 
+\* a key whose secret scalar starts with lz zero bytes is stored under name a (ImportPrivateKey), asked for with the right and
+\* another password, exported, imported under name b and asked for there; then the wrong-password / missing-name imports and a
+\* second given key replacing the first
+GivenScenario(lz, lz2, i, j) ==
+  LET a == GNameSeq[i] b == OtherName(i) c == OtherName(i + 1) p == GPwSeq[j] q == OtherPw(j)
+  IN [par |-> [family |-> "given", name |-> a, pw |-> p, lz |-> lz],
+      ops |-> <<OpKey(a, p), OpImportPriv(a, p, lz), OpKey(a, p), OpKey(a, q), OpExport(a, q, 1), OpExport(a, p, 1),
+                OpKey(b, p), OpImport(b, p, 1), OpKey(b, p), OpImportPriv(b, q, lz2), OpImportPriv(c, p, lz2), OpKey(b, p),
+                OpImportPriv(a, p, lz2), OpKey(a, p)>>]
+\* <<lz, lz of the second key, name class, password class>>
+GivenCases == IF Thorough THEN {<<0, 1, 2, 2>>, <<1, 2, 2, 1>>, <<1, 0, 3, 3>>, <<2, 3, 4, 4>>, <<3, 1, 5, 5>>, <<16, 2, 2, 3>>, <<31, 1, 2, 2>>}
+              ELSE {<<0, 1, 2, 2>>, <<1, 2, 5, 3>>, <<2, 0, 2, 1>>}
+
 Pairs == IF Thorough THEN {<<i, j>> : i \in 1..5, j \in 1..5} ELSE {<<i, i>> : i \in 1..5}
 TransferPairs == IF Thorough THEN {<<i, j>> : i \in 1..5, j \in {1, 3}} ELSE {<<2, 3>>}
 
-EnumScenarios == {ClassScenario(ij[1], ij[2]) : ij \in Pairs} \cup {TransferScenario(ij[1], ij[2]) : ij \in TransferPairs}
+EnumScenarios == IF Family = "given" THEN {GivenScenario(c[1], c[2], c[3], c[4]) : c \in GivenCases}
+                 ELSE {ClassScenario(ij[1], ij[2]) : ij \in Pairs} \cup {TransferScenario(ij[1], ij[2]) : ij \in TransferPairs}
 
 EnumNext == /\ hist = <<>>
             /\ UNCHANGED ksvars
@@ -52,6 +70,7 @@ LifeOp(r) == CASE r.op = "key"    -> OpKey(r.name, r.pw)
                [] r.op = "exists" -> OpExists(r.name)
                [] r.op = "export" -> OpExport(r.name, r.pw, r.slot)
                [] r.op = "import" -> OpImport(r.name, r.pw, r.slot)
+               [] r.op = "importpriv" -> OpImportPriv(r.name, r.pw, r.lz)
 \* a history starts by creating two keys (walks from an empty box mostly hit "missing")
 LifeNext == /\ Len(hist) < Depth
             /\ Next
@@ -65,6 +84,7 @@ GSpec == GInit /\ [][GNext]_<<ksvars, hist>>
 LifeNames == {"a", "nested"}
 LifePasswords == {"a", "upperA"}
 LifeSlots == {1}
+LifeGiven == {1, 2}
 
 Emit == IF Family = "life"
         THEN (Len(hist) = Depth => PrintT(<<"SCN", ToJson([par |-> [family |-> "life"], ops |-> hist])>>))
